@@ -32,6 +32,8 @@ def attribute(ent, bad_cfg, job):
     j.update(opts=cfg.get('opts'), models=True, id=0)
     if cfg.get('prems') == 'rev' and 'premises' in j:
         j['premises'] = j['premises'][::-1]
+    if cfg.get('prems') == 'dup' and j.get('premises'):
+        j['premises'] = j['premises'] + [j['premises'][0]]
     try:
         r = probe_json('probe_gproofs.py', stdin=json.dumps(dict(jobs=[j])), order=order)['results'][0]
         i = coqgen.ident(ent['logic'])
@@ -102,6 +104,11 @@ def run(args) -> int:
     for L in logics:
         if not L['modal']:
             continue
+        if L['quantified']:
+            # several dead-end worlds competing for a frame rule: the verdict must not depend on the ranking options
+            # (arguments of the form La, MLc |- ~M~a are left out: on the unchanged tree they already flip with premise
+            # multiplicity through the recorded NodeCount.isleast defect, C02 / C09 known findings)
+            jobs.append(dict(logic=L['name'], argstr='b:MKLaLNa:SxMFx', configs=cf, timeout_ms=2000))
         for a in (('a:MMLa', 'a:MMLa:Mb', 'a:MMLa:MLb', 'LLa:La') if args.tier == 'quick' else
                   ('a:MMLa', 'a:MMLa:Mb', 'a:MMLa:Mb:Mc', 'a:MLa', 'LLa:La', 'MMa:Ma', 'a:MMLa:MLb', 'LMa:MLa')):
             jobs.append(dict(logic=L['name'], argstr=a, configs=cf, timeout_ms=2000))
